@@ -67,11 +67,9 @@ def find_element_that_meets_mh(stack, metahandler):
 
 
 def create_tree_using_stacks(g: Grammar, r: ListWrapper, failures_limit=100):
-    # Refined (Annotated) types have no stack of their own: a refined field takes a value that its
-    # metahandler validates from the stack of the base type (see find_element_that_meets_mh).
     # (sorted: the symbols come out of a set, whose iteration order differs between processes, and
     # the genotype indexes into this list)
-    all_stack_types = sorted((t for t in g.get_all_mentioned_symbols() if not is_metahandler(t)), key=str)
+    all_stack_types = sorted(g.get_all_mentioned_symbols(), key=str)
 
     stacks: dict[type, list[Any]] = {k: [] for k in all_stack_types}
 
